@@ -327,9 +327,10 @@ Section Step.
            end.
 
   (** Every accepted call rewrites the record of the identity it addresses, and only that. *)
-  Lemma step_shape s sg o s' : step s sg o = Some s' -> exists r, s' = upd s (target o) r.
+  Lemma step_shape lg s sg o s' : step lg s sg o = Some s' -> exists r, s' = upd s (target o) r.
   Proof.
-    destruct o; cbn [OntId.step target]; intro H; crack H;
+    unfold OntId.step. destruct (lg && negb (legacy_method o)); [discriminate|].
+    destruct o; cbn [target]; intro H; crack H;
       repeat match type of H with
              | with_keys _ _ _ = Some _ => apply with_keys_inv in H; destruct H as [? [_ H]]
              | with_attrs _ _ _ = Some _ => apply with_attrs_inv in H; destruct H as [? [_ H]]
@@ -339,19 +340,19 @@ Section Step.
              end; subst; eauto.
   Qed.
 
-  Lemma step_frame s sg o s' j : step s sg o = Some s' -> j <> target o -> s' j = s j.
+  Lemma step_frame lg s sg o s' j : step lg s sg o = Some s' -> j <> target o -> s' j = s j.
   Proof.
-    intros H Hj. destruct (step_shape _ _ _ _ H) as [r Hr]. subst. apply upd_other. exact Hj.
+    intros H Hj. destruct (step_shape _ _ _ _ _ H) as [r Hr]. subst. apply upd_other. exact Hj.
   Qed.
 
   Lemma registered_of s i : is_valid s i = true -> registered s i.
   Proof. unfold is_valid, registered. apply is_valid_flag. Qed.
 
   (** Every accepted call is witnessed by the authority its method requires. *)
-  Lemma step_authorized s sg o s' : step s sg o = Some s' -> authorized s sg o.
+  Lemma step_authorized lg s sg o s' : step lg s sg o = Some s' -> authorized s sg o.
   Proof.
-    unfold OntIdSpec.authorized.
-    destruct o; cbn [OntId.step target required holds]; intro H; crack H; split_andb;
+    unfold OntIdSpec.authorized, OntId.step. destruct (lg && negb (legacy_method o)); [discriminate|].
+    destruct o; cbn [target required holds]; intro H; crack H; split_andb;
       repeat match goal with
              | H : is_valid _ _ = true |- _ => apply registered_of in H
              | H : newk_ok ?b = true |- _ => clear H
@@ -426,9 +427,9 @@ Section History.
 
   Lemma step_ev_change s e i :
     step_ev s e i <> s i ->
-    target (e_op e) = i /\ step s (e_signers e) (e_op e) = Some (step_ev s e).
+    target (e_op e) = i /\ step (e_legacy e) s (e_signers e) (e_op e) = Some (step_ev s e).
   Proof.
-    unfold OntId.step_ev. destruct (step s (e_signers e) (e_op e)) as [s'|] eqn:E; [|congruence].
+    unfold OntId.step_ev. destruct (step (e_legacy e) s (e_signers e) (e_op e)) as [s'|] eqn:E; [|congruence].
     intro Hne. split; [|reflexivity].
     destruct (N.eq_dec i (target (e_op e))) as [->|Hd]; [reflexivity|].
     exfalso. apply Hne. eapply step_frame; eauto.
@@ -449,7 +450,7 @@ Section History.
 
   Lemma accepted_authorized s e : accepted s e -> authorized s (e_signers e) (e_op e).
   Proof.
-    unfold OntIdSpec.accepted. destruct (step s (e_signers e) (e_op e)) eqn:E; [|congruence].
+    unfold OntIdSpec.accepted. destruct (step (e_legacy e) s (e_signers e) (e_op e)) eqn:E; [|congruence].
     intros _. eapply step_authorized. exact E.
   Qed.
 
@@ -460,10 +461,10 @@ Section History.
     unfold OntIdSpec.authorized. destruct (required o); cbn [holds]; intros [H _]; auto.
   Qed.
 
-  Lemma revoked_refused s sg o : id_revoked s (target o) -> step s sg o = None.
+  Lemma revoked_refused lg s sg o : id_revoked s (target o) -> step lg s sg o = None.
   Proof.
-    unfold id_revoked. intro Hr. destruct (step s sg o) eqn:E; [|reflexivity].
-    exfalso. destruct (authorized_flag _ _ _ (step_authorized _ _ _ _ _ _ _ E)) as [H|H];
+    unfold id_revoked. intro Hr. destruct (step lg s sg o) eqn:E; [|reflexivity].
+    exfalso. destruct (authorized_flag _ _ _ (step_authorized _ _ _ _ _ _ _ _ E)) as [H|H];
       unfold registered, unregistered in H; rewrite H in Hr;
       destruct gen_flags_distinct as [A [B C]]; congruence.
   Qed.
@@ -471,7 +472,7 @@ Section History.
   Lemma revoked_step_ev s e i : id_revoked s i -> step_ev s e i = s i.
   Proof.
     intro Hr. unfold OntId.step_ev.
-    destruct (step s (e_signers e) (e_op e)) as [s'|] eqn:E; [|reflexivity].
+    destruct (step (e_legacy e) s (e_signers e) (e_op e)) as [s'|] eqn:E; [|reflexivity].
     destruct (N.eq_dec i (target (e_op e))) as [->|Hd].
     - rewrite revoked_refused in E by exact Hr. discriminate.
     - eapply step_frame; eauto.
@@ -643,14 +644,15 @@ Section StepKeys.
 
   (** What an accepted call does to the addressed record: it becomes the revoked record, or it
       stays / becomes registered with a key list that extends the old one index by index. *)
-  Lemma step_record s sg o s' :
-    step s sg o = Some s' ->
+  Lemma step_record lg s sg o s' :
+    step lg s sg o = Some s' ->
     s' (target o) = revoked_rec \/
     (r_flag (s' (target o)) = FLAG_VALID /\
      keys_ext (r_keys (s (target o))) (r_keys (s' (target o))) /\
      (NoDup (map pk_key (r_keys (s (target o)))) -> NoDup (map pk_key (r_keys (s' (target o)))))).
   Proof.
-    destruct o; cbn [OntId.step target]; intro H; crack H; split_andb;
+    unfold OntId.step. destruct (lg && negb (legacy_method o)); [discriminate|].
+    destruct o; cbn [target]; intro H; crack H; split_andb;
       repeat match goal with
              | H : is_valid _ _ = true |- _ => apply registered_of in H; unfold registered in H
              end;
@@ -687,19 +689,19 @@ Section Reachable.
   Lemma wf_revoked_rec : wf_rec revoked_rec.
   Proof. split; [right; right; reflexivity|constructor]. Qed.
 
-  Lemma inv_step s sg o s' : inv s -> step s sg o = Some s' -> inv s'.
+  Lemma inv_step lg s sg o s' : inv s -> step lg s sg o = Some s' -> inv s'.
   Proof.
     intros Hi Hs j. destruct (N.eq_dec j (target o)) as [->|Hd].
-    - destruct (step_record _ _ _ _ _ _ _ Hs) as [Hr|[Hf [_ Hn]]].
+    - destruct (step_record _ _ _ _ _ _ _ _ Hs) as [Hr|[Hf [_ Hn]]].
       + rewrite Hr. apply wf_revoked_rec.
       + split; [left; exact Hf|apply Hn; apply Hi].
-    - rewrite (step_frame _ _ _ _ _ _ _ _ Hs Hd). apply Hi.
+    - rewrite (step_frame _ _ _ _ _ _ _ _ _ Hs Hd). apply Hi.
   Qed.
 
   Lemma inv_step_ev s e : inv s -> inv (step_ev s e).
   Proof.
     intro Hi. unfold OntId.step_ev.
-    destruct (step s (e_signers e) (e_op e)) eqn:E; [eapply inv_step; eauto|exact Hi].
+    destruct (step (e_legacy e) s (e_signers e) (e_op e)) eqn:E; [eapply inv_step; eauto|exact Hi].
   Qed.
 
   Lemma inv_run h : forall s, inv s -> inv (run s h).
@@ -737,13 +739,13 @@ Section Reachable.
   Lemma step_ev_keys s e i :
     id_revoked (step_ev s e) i \/ keys_ext (r_keys (s i)) (r_keys (step_ev s e i)).
   Proof.
-    unfold OntId.step_ev. destruct (step s (e_signers e) (e_op e)) as [s'|] eqn:E;
+    unfold OntId.step_ev. destruct (step (e_legacy e) s (e_signers e) (e_op e)) as [s'|] eqn:E;
       [|right; apply keys_ext_refl].
     destruct (N.eq_dec i (target (e_op e))) as [->|Hd].
-    - destruct (step_record _ _ _ _ _ _ _ E) as [Hr|[_ [Hk _]]].
+    - destruct (step_record _ _ _ _ _ _ _ _ E) as [Hr|[_ [Hk _]]].
       + left. unfold id_revoked. rewrite Hr. reflexivity.
       + right. exact Hk.
-    - right. rewrite (step_frame _ _ _ _ _ _ _ _ E Hd). apply keys_ext_refl.
+    - right. rewrite (step_frame _ _ _ _ _ _ _ _ _ E Hd). apply keys_ext_refl.
   Qed.
 
   Lemma run_keys h : forall s i,
@@ -822,10 +824,10 @@ Section Literal.
   (** ** a revoked (or never registered) identity carries no authority *)
   Lemma dead_controller_refuses s sg o j :
     inv s -> r_ctrl (s (target o)) = Some (CSingle j) -> ~ registered s j ->
-    required o = AController -> step id_ok id_valid addr_of s sg o = None.
+    required o = AController -> forall lg, step id_ok id_valid addr_of lg s sg o = None.
   Proof.
-    intros Hi Hc Hj Hr. destruct (step id_ok id_valid addr_of s sg o) eqn:E; [|reflexivity].
-    exfalso. pose proof (step_authorized _ _ _ _ _ _ _ E) as Ha.
+    intros Hi Hc Hj Hr lg. destruct (step id_ok id_valid addr_of lg s sg o) eqn:E; [|reflexivity].
+    exfalso. pose proof (step_authorized _ _ _ _ _ _ _ _ E) as Ha.
     unfold authorized in Ha. rewrite Hr in Ha. destruct Ha as [_ [c [Hc' Hw]]].
     rewrite Hc in Hc'. inversion Hc'; subst. cbn in Hw.
     eapply inv_no_witness; eauto.
